@@ -683,7 +683,7 @@ func ruleC10Triggers(w *World, r *Report) {
 		n := 0
 		allInstrs(h, func(i ssa.Instruction) {
 			d, ok := i.(*ssa.Defer)
-			if !ok || staticCallee(d) != sh {
+			if !ok || !deferRuns(d, sh) {
 				return
 			}
 			n++
@@ -1195,4 +1195,26 @@ func ruleC10Blocking(w *World, r *Report, ctx map[*ssa.Function][]*goRoot) {
 		r.check(g, "R10.9", w.FuncName(h), "the session record is removed only after the datapath accepted the delete", w.Pos(si.Pos()), "after SendMsgToUPF(del) ≠ rejected", "the record is removed before (or regardless of) the datapath delete: when the delete is refused the session stays installed but is no longer in the store, so the end-of-association sweep does not remove it")
 	}
 	r.floor("R10.9 RemoveSession in the deletion handler", k, 1)
+}
+
+// deferRuns: the deferred call is target itself, or a function literal that calls target on every
+// path to its return (defer func() { log; target() }()).
+func deferRuns(d *ssa.Defer, target *ssa.Function) bool {
+	g := staticCallee(d)
+	if g == nil {
+		return false
+	}
+	if g == target {
+		return true
+	}
+	if g.Parent() == nil || g.Blocks == nil {
+		return false
+	}
+	if len(callsTo(g, target)) == 0 {
+		return false
+	}
+	return mustPass(g, nil, isReturn, func(i ssa.Instruction) bool {
+		c, ok := i.(ssa.CallInstruction)
+		return ok && staticCallee(c) == target
+	}) == nil
 }
